@@ -326,7 +326,20 @@ pub struct Delivery {
 }
 
 /// Deliver `bytes` cut at `cuts` (ascending offsets) in lock step; then close the writer.
+/// A delivery normally takes micro- to milliseconds. One that took more than a second of real
+/// time was disturbed by the host (a descheduled thread can run into the codec's real 2 s header
+/// timeout) and is repeated once: the outcome is a function of the script alone, so anything
+/// genuine reproduces.
 pub fn deliver(bytes: &[u8], cuts: &[usize], v: ProtocolVersion, stop_after: usize) -> Delivery {
+	let t0 = Instant::now();
+	let d = deliver_once(bytes, cuts, v, stop_after);
+	if t0.elapsed() > Duration::from_millis(1000) {
+		return deliver_once(bytes, cuts, v, stop_after);
+	}
+	d
+}
+
+fn deliver_once(bytes: &[u8], cuts: &[usize], v: ProtocolVersion, stop_after: usize) -> Delivery {
 	let (mut w, r) = socket_pair();
 	let rfd = r.as_raw_fd();
 	let rdup = unsafe { libc::dup(rfd) };
@@ -1141,7 +1154,18 @@ fn post_decode(m: &Message, ah: &BlockHeader) {
 }
 
 /// Reader for C11: like `reader_thread` but runs the post-decode checks and keeps no payloads.
+/// As `hostile_delivery_once`; a run that took more than a second of real time (or hung) is
+/// repeated once, so that a stall of the host is not mistaken for a hang of the decoder.
 fn hostile_delivery(bytes: &[u8], cut: Option<usize>, v: ProtocolVersion, ah: &BlockHeader) -> (bool, Option<String>, usize, usize) {
+	let t0 = Instant::now();
+	let r = hostile_delivery_once(bytes, cut, v, ah);
+	if t0.elapsed() > Duration::from_millis(1000) {
+		return hostile_delivery_once(bytes, cut, v, ah);
+	}
+	r
+}
+
+fn hostile_delivery_once(bytes: &[u8], cut: Option<usize>, v: ProtocolVersion, ah: &BlockHeader) -> (bool, Option<String>, usize, usize) {
 	let (mut w, r) = socket_pair();
 	let done = Arc::new(AtomicBool::new(false));
 	let d2 = done.clone();
